@@ -57,7 +57,7 @@ def gen_links(rng, n, level_budget):
     return links
 
 
-def gen_signature(rng, nchains=None, with_cal=None, anchor=None, rfc=None, time=None, doc_alg=None, pub_time=None, long_chain=False, deprecated=None, first_corr=None, doc_data=None):
+def gen_signature(rng, nchains=None, with_cal=None, anchor=None, rfc=None, time=None, doc_alg=None, pub_time=None, long_chain=False, deprecated=None, first_corr=None, doc_data=None, doc_imprint=None):
     """Honest signature (internally consistent by construction). Returns Sig with .doc (imprint) and .info dict."""
     if time is None:
         time = rng.choice([1136073600 + rng.randrange(0, 330000000), 1467331200 + rng.randrange(0, 300000000), 1467331199, 1467331200, rng.randrange(1, 2 ** 31)])
@@ -82,6 +82,8 @@ def gen_signature(rng, nchains=None, with_cal=None, anchor=None, rfc=None, time=
     budget = 255
     chains = []
     doc = rnd_imprint(rng, doc_alg) if doc_data is None else R.H(doc_alg, doc_data)
+    if doc_imprint is not None:
+        doc = doc_imprint
     cur = doc
     rfcrec = None
     if rfc:
